@@ -3,7 +3,7 @@
 use crate::dp::{hex, unhex};
 use crate::{Area, Rng};
 use adlt::dlt::*;
-use adlt::filter::functions::{filter_as_streams, filters_from_dlf};
+use adlt::filter::functions::{filter_as_streams, filters_from_convert_format, filters_from_dlf};
 use adlt::filter::{Filter, FilterKindContainer};
 use adlt::utils::remote_utils::match_filters;
 use std::sync::mpsc::channel;
@@ -167,6 +167,19 @@ pub(crate) fn dlf_expressible(a: &AF) -> bool {
     !a.not && a.lcs.is_none() && a.vmm.is_none() && (a.mstp.is_none() || a.mstp == Some(3)) && a.t <= 3 && (a.ecu.is_none() || a.ecure == Some(false))
 }
 
+/// can the abstract filter be written as one entry of a dlt-convert APID/CTID list? (positive, enabled, two literal ids of at
+/// most four ASCII bytes without the padding character, nothing else)
+pub(crate) fn list_expressible(a: &AF) -> bool {
+    let id_ok = |s: &Option<String>, re: &Option<bool>| matches!((s, re), (Some(x), Some(false)) if !x.is_empty() && x.len() <= 4 && x.is_ascii() && !x.contains('-'));
+    a.t == 0 && a.en && !a.not && a.ecu.is_none() && id_ok(&a.apid, &a.apidre) && id_ok(&a.ctid, &a.ctidre) && a.vmm.is_none() && a.mstp.is_none()
+        && a.pl.is_none() && a.plre.is_none() && a.lmin.is_none() && a.lmax.is_none() && a.lcs.is_none()
+}
+
+/// the list format: per entry APID and CTID, each padded to four bytes with `-` and followed by one separator byte
+pub(crate) fn to_list_many(afs: &[AF]) -> String {
+    afs.iter().map(|a| format!("{:-<4} {:-<4} ", a.apid.clone().unwrap_or_default(), a.ctid.clone().unwrap_or_default())).collect()
+}
+
 fn to_dlf(a: &AF) -> String {
     to_dlf_many(std::slice::from_ref(a))
 }
@@ -282,7 +295,24 @@ fn run(case: &str) -> String {
             },
             None => "E".to_string(),
         };
-        outs.push(format!("J{}:{} D{}:{} R{}:{}", i, jb, i, db, i, rb));
+        // the list front-end: the entry alone, and the entry behind the other expressible entries of the case (position in the list)
+        let lb = if list_expressible(a) {
+            let alone = filters_from_convert_format(to_list_many(std::slice::from_ref(a)).as_bytes());
+            let mut all: Vec<AF> = afs.iter().enumerate().filter(|(k, x)| *k != i && list_expressible(x)).map(|(_, x)| x.clone()).collect();
+            all.push(a.clone());
+            let many = filters_from_convert_format(to_list_many(&all).as_bytes());
+            match (alone, many) {
+                (Ok(f1), Ok(fm)) if f1.len() == 1 && fm.len() == all.len() => {
+                    let b1 = bits(&msgs.iter().map(|m| f1[0].matches(m)).collect::<Vec<_>>());
+                    let bm = bits(&msgs.iter().map(|m| fm[all.len() - 1].matches(m)).collect::<Vec<_>>());
+                    if b1 == bm { b1 } else { format!("{}/{}", b1, bm) }
+                }
+                _ => "E".to_string(),
+            }
+        } else {
+            "-".to_string()
+        };
+        outs.push(format!("J{}:{} D{}:{} R{}:{} L{}:{}", i, jb, i, db, i, rb, i, lb));
         loaded.push(j);
     }
     if loaded.iter().all(|f| f.is_some()) {
@@ -394,7 +424,15 @@ pub(crate) fn gen_filter(rng: &mut Rng) -> AF {
 
 fn gen(rng: &mut Rng, tier: u32) -> String {
     let nf = 1 + rng.below(if tier > 0 { 6 } else { 4 }) as usize;
-    let afs: Vec<AF> = (0..nf).map(|_| gen_filter(rng)).collect();
+    let mut afs: Vec<AF> = (0..nf).map(|_| gen_filter(rng)).collect();
+    // filters that the dlt-convert list format can express: ids of different lengths next to each other
+    if rng.chance(4) {
+        for a in afs.iter_mut() {
+            if rng.chance(2) {
+                *a = AF { t: 0, en: true, apid: Some(rng.pick(&["APID", "AP1", "A", "SYS"]).to_string()), apidre: Some(false), ctid: Some(rng.pick(&["CTID", "CT", "C1", "MAIN"]).to_string()), ctidre: Some(false), ..Default::default() };
+            }
+        }
+    }
     let nm = 1 + rng.below(if tier > 0 { 16 } else { 8 }) as usize;
     let mut ms = vec![];
     let mut built = vec![];
